@@ -370,7 +370,17 @@ func guardStr(f func() string) (s string, p any) {
 	return f(), nil
 }
 
+// ownedWriter: a simulated io.Writer that knows the goroutine of the call it is handed to (sim/foreign.go): a Write that
+// arrives on another goroutine is delivered when the caller waits for it, or - once the call has returned - not before the
+// case is over, so that what the io.Writer holds when the call returns does not depend on the Go scheduler.
+func ownedWriter(failCall int) *sim.SimWriter {
+	w := sim.NewSimWriter(failCall)
+	w.Own()
+	return w
+}
+
 func propC04(cx *sim.Ctx) {
+	defer sim.ReleaseLate() // (writes still pending on goroutines of the library are delivered when the case is over)
 	sim.Declare([]string{"stream_flushed_2plus_times", "flush_right_before_comma", "flush_right_before_close", "flush_right_before_newline_overwrite", "flush_between_key_and_value", "deep_indented_stream", "baseline_text_judged"}, []string{"oj_writer_io_error", "pretty_writer_io_error"})
 	c := drawWriteCase(cx.T)
 	cx.Render(c.render)
@@ -504,9 +514,9 @@ func propC04(cx *sim.Ctx) {
 	{
 		optW := c.Opt
 		optW.WriteLimit = c.Limit
-		sw := sim.NewSimWriter(-1)
+		sw := ownedWriter(-1)
 		var err error
-		_, p := guardStr(func() string { err = oj.Write(sw, data, &optW); return "" })
+		_, p := guardStr(func() string { defer sw.Done(); err = oj.Write(sw, data, &optW); return "" })
 		cx.Exec()
 		switch {
 		case p != nil:
@@ -517,8 +527,8 @@ func propC04(cx *sim.Ctx) {
 			sameText("oj.Write", mem, sw)
 		}
 		wr := &oj.Writer{Options: optW}
-		sw2 := sim.NewSimWriter(-1)
-		_, p = guardStr(func() string { err = wr.Write(sw2, data); return "" })
+		sw2 := ownedWriter(-1)
+		_, p = guardStr(func() string { defer sw2.Done(); err = wr.Write(sw2, data); return "" })
 		cx.Exec()
 		if p == nil && err == nil {
 			sameText("oj.Writer.Write", mem, sw2)
@@ -527,12 +537,12 @@ func propC04(cx *sim.Ctx) {
 		}
 		if c.FailCall >= 0 {
 			// fault configuration: the k-th Write call of the io.Writer fails
-			swf := sim.NewSimWriter(c.FailCall)
+			swf := ownedWriter(c.FailCall)
 			swf.Sticky = sim.Bool(cx.T, "sticky")
 			swf.Short = sim.Bool(cx.T, "short")
 			swf.Full = sim.Intn(cx.T, 3, "fullcount") == 2
 			wrf := &oj.Writer{Options: optW}
-			_, p = guardStr(func() string { err = wrf.Write(swf, data); return "" })
+			_, p = guardStr(func() string { defer swf.Done(); err = wrf.Write(swf, data); return "" })
 			cx.Exec()
 			if swf.FaultHit {
 				sim.Fault("oj_writer_io_error")
@@ -600,9 +610,9 @@ func propC04(cx *sim.Ctx) {
 		default:
 			judgeText("oj.Writer.JSON(used writer)", []byte(ws), c.Opt.Sort)
 		}
-		sw := sim.NewSimWriter(-1)
+		sw := ownedWriter(-1)
 		var err error
-		_, p = guardStr(func() string { err = wr.Write(sw, data); return "" })
+		_, p = guardStr(func() string { defer sw.Done(); err = wr.Write(sw, data); return "" })
 		cx.Exec()
 		if p != nil || err != nil {
 			cx.Fail("C04/error/oj.Writer.Write(used writer)", fmt.Sprint(p, err), attrs)
@@ -633,9 +643,9 @@ func propC04(cx *sim.Ctx) {
 	{
 		optPW := c.Opt
 		optPW.WriteLimit = c.Limit
-		sw := sim.NewSimWriter(-1)
+		sw := ownedWriter(-1)
 		var err error
-		_, p := guardStr(func() string { err = pretty.WriteJSON(sw, data, parg, c.Align, &optPW); return "" })
+		_, p := guardStr(func() string { defer sw.Done(); err = pretty.WriteJSON(sw, data, parg, c.Align, &optPW); return "" })
 		cx.Exec()
 		switch {
 		case p != nil:
@@ -652,10 +662,10 @@ func propC04(cx *sim.Ctx) {
 			}
 		}
 		if c.FailCall >= 0 {
-			swf := sim.NewSimWriter(c.FailCall)
+			swf := ownedWriter(c.FailCall)
 			swf.Short = sim.Bool(cx.T, "short")
 			swf.Full = sim.Intn(cx.T, 3, "fullcount") == 2
-			_, p = guardStr(func() string { err = pretty.WriteJSON(swf, data, parg, c.Align, &optPW); return "" })
+			_, p = guardStr(func() string { defer swf.Done(); err = pretty.WriteJSON(swf, data, parg, c.Align, &optPW); return "" })
 			cx.Exec()
 			if swf.FaultHit {
 				sim.Fault("pretty_writer_io_error")
